@@ -1,12 +1,13 @@
 """C19 -- UML class generation is complete, namespace-faithful and self-consistent."""
 import collections
+import contextlib
 import glob
 import json
 import os
 import random
 import re
 
-from .. import kj, umlsynth as us
+from .. import kj, umlblob as ub, umlsynth as us, vppsynth as vs
 from ..check import VERIF, unjson
 
 from kojen import LanguageCPP, LanguageCsharp  # noqa: E402
@@ -28,23 +29,47 @@ MANIFEST = {
             "RecursionError). The model is tied to the code by translator/uml.py (branch conditions, template filters, file-name dictionaries, "
             "template directory listing regenerated from umlgen.py) and by differential runs on the shipped diagrams and mutants of them "
             "(GetOperationPerVisibility vs ops_of with the theorem's fuel, generated file set vs files_of and vs Spec.expected_files).",
-    "note": "Input adaptor not modelled: kojen's blob parser produces the class diagram objects; parameter type/name/default rendering is taken "
-            "from LanguageCPP's own helpers. 'Accepted by a C++ compiler' is an observation (g++ 14 -fsyntax-only), not a theorem. C#: file set and "
-            "crash observation only (no C# compiler). Known findings K-C19-*.",
+    "adaptor": "INPUT ADAPTOR (project file -> class diagram objects), now modelled: Model/UmlBlob.v = vppfs.ParseBLOB_Recursive / "
+               "Get_ValuesFromOutside, vppclassdiagram's Class / ClassOperation / ClassAttribute / Package / Inheritance / Association parsing, "
+               "namespaces from the package chain, ExtractClassDiagram, and LanguageCPP's GetTypeAndNameFromMultiplicityAndModifier / "
+               "GetDefaultFormatFromMultiplicityAndModifier / Class.GetContainerMultiplicityType; adaptor d name = the cdiagram the generator model "
+               "consumes. THEOREMS: C19_adaptor_text_transparent (for every structured blob in the stated domain -- plain keys, values, ids; no free "
+               "text with braces or separators; no apostrophe -- parsing str(print) gives exactly the dictionary the blob stands for: composition of "
+               "the stack-machine theorem parse_blob_sem, the field theorem values_segments and mass_repr), C19_adaptor_roundtrip_partial (hence "
+               "loading the project that the ASSUMED writer encode_cdiagram produces equals loading from those dictionaries: the text layer is "
+               "transparent), C19_adaptor_others_no_influence (whatever a diagram's own rows give, every project that hosts them gives: rows of other "
+               "diagrams, in any order, have no influence), C19_adaptor_visibilities (every cdiagram the adaptor returns has public/protected/private "
+               "operations only, so wf_vis needs no hypothesis and K-C19-4 cannot arise from a project file), C19_files_from_project / "
+               "C19_decl_def_from_project / C19_realised_from_project (the generator theorems stated from the project rows), C19_adaptor_calibration "
+               "(the assumed writer reproduces every row of both shipped class diagrams byte for byte; 78 of their 88 blobs lie in the domain of the "
+               "text theorem), C19_adaptor_source_shape (every string literal of the modelled functions pinned), C19_adaptor_name_refuted (operator< "
+               "is read as operator). WRITER ASSUMPTION: Model/UmlWriter.v (structured blobs: fields, reference lists, owned elements, in any order). "
+               "NOT a theorem: that the dictionaries of a SEMANTIC class (name, flags, operations ...) are turned into exactly that class by the object "
+               "builders (tied by differential runs only: shipped diagrams, synthesised projects written from object graphs and read back, damaged "
+               "projects with agreeing exceptions).",
+    "note": "Trusted: Coq kernel, extraction, translators uml.py / umlblob.py / vpp.py, sqlite3, CPython str methods and bytes.__repr__ (tied by "
+            "execution). The Visual Paradigm writer for class diagrams is an ASSUMPTION calibrated on the one shipped project. The step from the "
+            "parsed dictionaries to Class/Operation objects is modelled and differentially tied but its read-back theorem is stated only at the "
+            "dictionary level (C19_adaptor_roundtrip_partial). 'Accepted by a C++ compiler' is an observation (g++ 14 -fsyntax-only), not a theorem. "
+            "C#: file set and crash observation only (no C# compiler). Known findings K-C19-*.",
 }
+MANIFEST["text"] += " " + MANIFEST.pop("adaptor")
 RULE = ("the two shipped class diagrams and mutants of them (1-4 random edits of the parsed object graph: rename/remove/retype classes, "
         "rename packages, rename/remove/retype operations, parameters, attributes, relationships, visibility, copying a realised operation "
         "into the class), namespace folders on/off, export macro empty/'DLL_API', C++ and C# back ends; a mutant is non-trivial when the "
         "generator produced at least one class with operations; distinct = distinct (diagram, edits, options)")
 ASSUMPTIONS = [
-    "operation visibilities are public/protected/private (a 'package' operation is defined but never declared: K-C19-4)",
+    "operation visibilities are public/protected/private: a theorem for every diagram read from a project file (C19_adaptor_visibilities); a 'package' operation exists only in in-memory mutants (K-C19-4)",
+    "adaptor: names, values and ids are plain text (printable ASCII without = < > ; \\ \" ' ( ) , and without leading/trailing blanks), no ':' in ids/names/types of element headers, free text without braces and separators (K-C19-6 outside)",
     "no realisation cycle among pure virtual interfaces (C19_cycle_refuted: RecursionError otherwise)",
     "files_hyp: class names non-empty without '.' and '/', namespace not ending in a separator, distinct output paths (two classes of one name in different packages collide when namespace folders are off: K-C19-5 is exactly distinct_paths = false)",
     "multiplicity 1 of a definition needs distinct signatures per class: an operation reached through two realisation paths is emitted twice (K-C19-1b); an operation both declared in the class and realised is emitted once since the fix (K-C19-1)",
     "no inheritance entry points to a class outside the diagram (closed; KeyError otherwise)",
 ]
-TRUSTED = ["Coq 8.16.1 kernel (coqc; coqchk in the thorough tier)", "axioms: none", "translator/uml.py", "extraction: ExtrOcamlBasic + ExtrOcamlNativeString",
-           "input adaptor (not modelled): vppclassdiagram's blob parser and LanguageCPP.GetTypeAndNameFromMultiplicityAndModifier / GetDefaultFormatFromMultiplicityAndModifier",
+TRUSTED = ["Coq 8.16.1 kernel (coqc; coqchk in the thorough tier)", "axioms: none", "translator/uml.py, translator/umlblob.py", "extraction: ExtrOcamlBasic + ExtrOcamlNativeString",
+           "assumed, not kojen code: the Visual Paradigm writer for class diagrams (Model/UmlWriter.v), calibrated on the shipped project",
+           "modelled, not verified: sqlite3 row order / PRIMARY KEY, CPython str methods, bytes.__repr__, int() on multiplicities (ASCII digits, sign, blanks only)",
+           "harness/umlblob.py: Python twin of the writer (objects -> structured blobs -> bytes) used to synthesise project files; its output is read by the real adaptor and by the model",
            "harness tokenizer for generated .h/.cpp (line based)", "g++ 14 for 'accepted by a C++ compiler'"]
 ALLOWED_AXIOMS = []
 
@@ -101,7 +126,7 @@ def expected_paths(cd, nsf, lang="cpp"):
     return exp, clash
 
 
-def observe(ctx, cd, label, nsf, dclspc, edits, compile_all, touch=()):
+def observe(ctx, cd, label, nsf, dclspc, edits, compile_all, touch=(), project=None):
     """generate for real, then check the property on the generated tree with model-free oracles; returns list of failures"""
     fails = []
 
@@ -123,7 +148,13 @@ def observe(ctx, cd, label, nsf, dclspc, edits, compile_all, touch=()):
         ctx.count("acyclic=%s files_hyp=%s" % (acyclic, hyp[0]))
     with kj.scratch("kjv-uml-") as out:
         try:
-            ret = us.generate(cd, out, "cpp", nsf, dclspc)
+            if project is not None:      # the REAL public entry point on a synthesised project file
+                from kojen import Generate
+                with kj.quiet():
+                    ret = Generate.UML(out, project[0], project[1].decode("utf-8"), dclspc, "a", "g", "b", nsf, "")
+                ctx.count("generated_through_Generate.UML_from_a_project_file")
+            else:
+                ret = us.generate(cd, out, "cpp", nsf, dclspc)
         except RecursionError:
             if acyclic:
                 fail("RecursionError although the diagram is acyclic and closed", "uml:%s:acyclic-no-return" % label, finding_class="uml:acyclic-no-return")
@@ -258,6 +289,146 @@ def csharp(ctx, cd, label, nsf, edits):
     return fails
 
 
+# ---------------------------------------------------------------- the input adaptor (Model/UmlBlob.v)
+
+BLOB_ALPHA = ["{", "}", ";", "=", ":", "<", ">", "(", ")", ",", '"', "'", " ", "\\r\\n\\t", "\\t", "a", "Child", "child_0", "type", "name", "x1", "Operation",
+              "b'", "stereotypes", "abstract", "visibility=71", "<a:b>", "\n", "é"]
+
+
+def adaptor_ties(ctx):
+    """function level: ParseBLOB_Recursive and the rendering helpers vs the model; the shipped diagrams row for row"""
+    km, rng = ctx.km, ctx.rng
+    db = ub.read_rows(vs.BLOB_XML)
+    rows = db[2] if not ctx.quick else [m for j, m in enumerate(db[2]) if j % 4 == 0 or m[1] in (b"Class", b"Association", b"Package")]
+    for m in rows:
+        text = str(m[4])
+        if ub.real_parse(text) != km.call("ub_parse", text.encode("utf-8")):
+            ctx.tie_broken("correspondence vppfs.ParseBLOB_Recursive vs UmlBlob.parse_blob on a shipped blob", {"id": m[0]})
+        ctx.count("adaptor_shipped_blobs_parsed")
+    for i in range(ctx.budget(300, 6000)):
+        text = "".join(rng.choice(BLOB_ALPHA) for _ in range(rng.randint(0, 24)))
+        if ub.real_parse(text) != km.call("ub_parse", text.encode("utf-8")):
+            ctx.tie_broken("correspondence vppfs.ParseBLOB_Recursive vs UmlBlob.parse_blob", {"text": text})
+        ctx.count("adaptor_random_texts_parsed")
+    lang = LanguageCPP.LanguageCPP()
+    anycls = next(iter(us.load("TestClassDiagram").classes.values()))
+    for i in range(ctx.budget(300, 6000)):
+        ty = rng.choice(["int", "XA::CB", "", "bool"])
+        mod = rng.choice(["", "*", "&", "[]", " [] ", "*&"])
+        mu = rng.choice(["", "*", "0..1", "1", "0", "4", "2..5", "1..*", "0..*", "a..b", "x", " 7 ", "+3", "-2", "3..", "..", "10", "07", "1..4..9"])
+        nm = rng.choice(["_p", "m_x", ""])
+        df = rng.choice(["", "0", "nullptr, nullptr", " 1 "])
+        real = [lang.GetTypeAndNameFromMultiplicityAndModifier(anycls, ty, mod, mu, nm), lang.GetDefaultFormatFromMultiplicityAndModifier(anycls, mod, mu, df),
+                anycls.GetContainerMultiplicityType(mu)]
+        model = [km.call("ub_type_and_name", ty, mod, mu, nm), km.call("ub_default", mod, mu, df), km.call("ub_container", mu)]
+        if [[x.encode() for x in real[0]], real[1].encode(), real[2].encode()] != model:
+            ctx.tie_broken("correspondence LanguageCPP rendering helpers vs UmlBlob.type_and_name / default_format / container_type",
+                           {"type": ty, "modifier": mod, "multiplicity": mu, "name": nm, "default": df, "real": real, "model": model})
+        ctx.count("adaptor_rendering_cases")
+    for name in (b"TestClassDiagram", b"ProtocolStack"):
+        real, cd, err = ub.real_load(vs.BLOB_XML, name)
+        if real != km.call("ub_load", vs.db_v(db), name):
+            ctx.tie_broken("correspondence vppclassdiagram.ExtractClassDiagram vs UmlBlob.load_cdiagram on the shipped project", {"diagram": name, "error": err})
+        elif cd is not None and km.call("ub_adaptor", vs.db_v(db), name) != [ub.abstract_view(cd)]:
+            ctx.tie_broken("UmlBlob.adaptor differs from the abstract diagram the harness computes from kojen's objects", {"diagram": name})
+        ctx.case(("adaptor-shipped", name))
+    # malformed projects: a synthesised project with damaged blobs; exceptions must agree too
+    for i in range(ctx.budget(40, 600)):
+        cd = us.load(us.DIAGRAMS[i % 2])
+        r2 = random.Random(rng.randint(0, 1 << 30))
+        try:
+            us.mutate(r2, cd, r2.randint(0, 2))
+            dbm, name = ub.project_rows(r2, cd)
+        except Exception:  # noqa
+            ctx.count("adaptor_malformed_skipped")
+            continue
+        ms = list(dbm[2])
+        for _ in range(r2.randint(1, 3)):
+            j = r2.randrange(len(ms))
+            blob = bytearray(ms[j][4])
+            k = r2.randrange(len(blob) + 1)
+            act = r2.choice(["del", "ins", "cut", "swap"])
+            if act == "del" and blob:
+                del blob[min(k, len(blob) - 1)]
+            elif act == "ins":
+                blob[k:k] = r2.choice([b"{", b"}", b";", b"=", b":", b"<", b">", b"'", b'"', b"child=", b"\xc3\xa9"])
+            elif act == "cut":
+                blob = blob[:k]
+            elif blob:
+                blob[min(k, len(blob) - 1)] = r2.choice(b"{};=:<>")
+            ms[j] = ms[j][:4] + (bytes(blob),)
+        dbm = (dbm[0], dbm[1], ms)
+        with kj.scratch("kjv-umlbad-") as d:
+            path = ub.project_path(d)
+            vs.write_project(path, dbm)
+            try:
+                real, _cd, err = ub.real_load(path, name)
+            except ub.NotAString:
+                real, err = [], "a dict where a text belongs"
+        model = km.call("ub_load", vs.db_v(dbm), name)
+        if real != model:
+            ctx.tie_broken("correspondence ExtractClassDiagram vs UmlBlob.load_cdiagram on a damaged project", {"seed": i, "error": err, "model_returns": bool(model)})
+        ctx.case(("adaptor-malformed", i), nontrivial=bool(real))
+        ctx.count("adaptor_malformed_%s" % ("loads" if real else "rejected"))
+
+
+def separator_probe(ctx):
+    """outside the domain of the adaptor theorem (C19_adaptor_name_refuted): an operation called operator< in a project file"""
+    cd = us.load("TestClassDiagram")
+    target = next(c for c in cd.classes.values() if c.OPERATIONS and not c.PURE_VIRTUAL_INTERFACE)
+    target.OPERATIONS[0].NAME = "operatorLT"
+    try:
+        db, name = ub.project_rows(random.Random(7), cd)
+    except ub.Unencodable:
+        return
+    ms = [m[:4] + (m[4].replace(b'"operatorLT"', b'"operator<"'),) for m in db[2]]
+    with kj.scratch("kjv-umlsep-") as d:
+        path = ub.project_path(d)
+        vs.write_project(path, (db[0], db[1], ms))
+        real, cd2, err = ub.real_load(path, name)
+    if ctx.km is not None and real != ctx.km.call("ub_load", vs.db_v((db[0], db[1], ms)), name):
+        ctx.tie_broken("correspondence ExtractClassDiagram vs UmlBlob.load_cdiagram (operation called operator<)", {"error": err})
+    names = [o.NAME for c in (cd2.classes.values() if cd2 else []) for o in c.OPERATIONS]
+    ctx.case(("adaptor-separator-probe",))
+    if "operator<" not in names:
+        ctx.violation("an operation drawn as operator< is read from the project file as %r" % [n for n in names if n.startswith("operator")][:1],
+                      {"finding_key": "uml-adaptor:name-with-separator", "finding_class": "uml-adaptor:name-with-separator", "label": "TestClassDiagram",
+                       "mut_seed": 0, "nedits": 0, "separator_probe": True})
+
+
+def adaptor_case(ctx, stack, cd, seed, meta=None):
+    """write cd (normalised in place) as a project file through the assumed writer, read it back with the real adaptor and with
+    the model; returns (path, diagram name, objects read back) or None when the object graph has no project-file form"""
+    rng = random.Random(seed ^ 0x5EED)
+    try:
+        db, name = ub.project_rows(rng, cd)
+    except ub.Unencodable as e:
+        ctx.count("adaptor_unencodable:" + str(e).split(" ")[0])
+        return None
+    try:
+        want = ub.modid(ub.rdiagram_view(cd), cd)
+    except ub.NotAString:
+        return None
+    d = stack.enter_context(kj.scratch("kjv-umlproj-"))
+    path = ub.project_path(d)
+    vs.write_project(path, db)
+    real, cd2, err = ub.real_load(path, name)
+    model = ctx.km.call("ub_load", vs.db_v(db), name) if ctx.km is not None else real
+    info = dict(meta or {}, via_project=seed, error=err)
+    if real != model:
+        ctx.tie_broken("correspondence ExtractClassDiagram vs UmlBlob.load_cdiagram on a synthesised project", info)
+    if not real:
+        ctx.violation("the adaptor rejects a synthesised project file: %s" % err, dict(info, finding_key="uml-adaptor:load-failed", finding_class="uml-adaptor"))
+        return None
+    if ub.modid(real[0], cd) != want:
+        ctx.violation("the class diagram read back from the synthesised project differs from the one written",
+                      dict(info, finding_key="uml-adaptor:roundtrip", finding_class="uml-adaptor"))
+    if ctx.km is not None and ctx.km.call("ub_adaptor", vs.db_v(db), name) != [ub.abstract_view(cd2)]:
+        ctx.tie_broken("UmlBlob.adaptor differs from the abstract diagram of the objects read back", info)
+    ctx.count("adaptor_synthesised_projects")
+    return path, name, cd2
+
+
 def directed_probes(ctx):
     """shapes the random edits reach rarely, built from the shipped TestClassDiagram with umlsynth's mutators on every run:
     each association removed in turn, association ends reordered (to-one ends last), an explicit constructor of the arity
@@ -342,6 +513,9 @@ def run(ctx):
         if not replay(ctx, data):
             ctx.violation("corpus case %s fails" % os.path.basename(p), data)
     derived_project_probe(ctx)
+    if ctx.km is not None:
+        adaptor_ties(ctx)
+    separator_probe(ctx)
     directed_probes(ctx)
     n = ctx.budget(60, 200)
     cases = [(label, 0, 0) for label in us.DIAGRAMS] + [("TestClassDiagram", -1, 0)]
@@ -353,11 +527,21 @@ def run(ctx):
             edits = ["realisation-cycle"] if us.add_cycle(cd) else []
         nsf = (idx % 2 == 0)
         dclspc = "" if idx % 3 else "DLL_API"
-        if ctx.km is not None:
-            function_level(ctx, cd, label)
-        fails, nontrivial = observe(ctx, cd, label, nsf, dclspc, edits, compile_all=(nedits == 0 or not ctx.quick))
-        if idx % 4 == 0 or nedits == 0:
-            fails += csharp(ctx, cd, label, nsf, edits)
+        with contextlib.ExitStack() as stack:
+            project = None
+            if seed != -1 and (idx % 3 == 1 or nedits == 0 or ctx.km is None):
+                # a share of the cases goes through a synthesised project file and the real adaptor / public entry point
+                project = adaptor_case(ctx, stack, cd, seed, {"label": label, "mut_seed": seed, "nedits": nedits})
+                if project is not None:
+                    cd = project[2]
+            if ctx.km is not None:
+                function_level(ctx, cd, label)
+            fails, nontrivial = observe(ctx, cd, label, nsf, dclspc, edits, compile_all=(nedits == 0 or not ctx.quick), project=project)
+            if idx % 4 == 0 or nedits == 0:
+                fails += csharp(ctx, cd, label, nsf, edits)
+            for f in fails:
+                if project is not None:
+                    f["via_project"] = seed
         ctx.case(("uml", label, seed, nedits, nsf, dclspc), nontrivial=nontrivial)
         ctx.count("diagram_%s_edits_%d" % (label, nedits))
         for e in edits:
@@ -377,13 +561,26 @@ def replay(ctx, data):
     if data.get("no_failing_input_found"):
         print(json.dumps(data.get("no_longer_checks"), indent=1, default=repr)[:3000])
         return False
+    if data.get("separator_probe"):
+        before = len(ctx.violations) + len(ctx.known)
+        separator_probe(ctx)
+        return len(ctx.violations) + len(ctx.known) == before
     cd, edits = build(data["label"], data["mut_seed"], data["nedits"])
     if data["mut_seed"] == -1:
         us.add_cycle(cd)
     if data.get("probe"):
         us.apply_probe(cd, data["probe"])
         edits = ["probe:" + data["probe"]]
-    if data.get("lang") == "cs":
-        return not csharp(ctx, cd, data["label"], data["nsf"], edits)
-    fails, _ = observe(ctx, cd, data["label"], data["nsf"], data.get("dclspc", ""), edits, True)
-    return not [f for f in fails if f["finding_key"] == data["finding_key"]]
+    with contextlib.ExitStack() as stack:
+        project = None
+        if "via_project" in data:
+            before = len(ctx.violations) + len(ctx.known) + len(ctx.broken)
+            project = adaptor_case(ctx, stack, cd, data["via_project"])
+            if str(data.get("finding_key", "")).startswith("uml-adaptor"):
+                return len(ctx.violations) + len(ctx.known) + len(ctx.broken) == before
+            if project is not None:
+                cd = project[2]
+        if data.get("lang") == "cs":
+            return not csharp(ctx, cd, data["label"], data["nsf"], edits)
+        fails, _ = observe(ctx, cd, data["label"], data["nsf"], data.get("dclspc", ""), edits, True, project=project)
+        return not [f for f in fails if f["finding_key"] == data["finding_key"]]
